@@ -222,3 +222,36 @@ Example C13_purge_pass_example :
   visible_ids (purge_pass true (mkPT [(true, [1; 2; 3]); (false, [2; 4])] [2])) = [1; 3; 4] /\
   visible_ids (purge_pass true (mkPT [(false, [1; 2; 3]); (false, [2; 4])] [2])) = [1; 3; 4].
 Proof. vm_compute. split; reflexivity. Qed.
+
+(* =====================================================================================================================
+   DROP DATABASE / RETENTION POLICY / MEASUREMENT as the phases the code runs (C13/Phases.v): mark in the catalogue (the
+   acknowledgement), file-by-file deletion on every store, finalisation only when every store is empty; any crash between steps.
+   [pnext true] = today's guard on the finalisation. *)
+From OG Require Import C13.Phases.
+(* not dropped before the acknowledgement: crashes, stray store messages and finalisation attempts change nothing of a live object *)
+Theorem C13_phases_live_object_untouched : forall g s os, ps_cat s = Live -> forallb background os = true -> prun g s os = s.
+Proof. exact live_untouched. Qed.
+(* dropped at every crash point after it: nothing is readable until the name is created again, and that is refused while marked *)
+Theorem C13_phases_dropped_at_every_point : forall g s os, ps_cat s <> Live -> forallb not_create os = true -> pvisible (prun g s os) = [].
+Proof. exact dropped_at_every_point. Qed.
+Theorem C13_phases_create_refused_while_marked : forall g s, ps_cat s = Marked -> pnext g s PCreate = s.
+Proof. exact create_refused_while_marked. Qed.
+(* a re-run completes from every crash point: after any part of the deletion, one more round frees the name and empties every store *)
+Theorem C13_phases_rerun_completes : forall s os, ps_cat s = Marked -> forallb deletion_step os = true ->
+  ps_cat (pround true (prun true s os)) = Absent /\ all_empty (ps_files (pround true (prun true s os))) = true.
+Proof. exact rerun_completes. Qed.
+(* re-creation is fresh in every reachable state: no file of an earlier object of the name is ever visible, and a free name has no files *)
+Theorem C13_phases_recreated_is_fresh : forall n os x, In x (pvisible (prun true (p0 n) os)) -> x = ps_inc (prun true (p0 n) os).
+Proof. exact recreated_is_fresh. Qed.
+Theorem C13_phases_free_name_has_no_files : forall n os, ps_cat (prun true (p0 n) os) = Absent -> all_empty (ps_files (prun true (p0 n) os)) = true.
+Proof. exact free_name_has_no_files. Qed.
+Print Assumptions C13_phases_live_object_untouched.
+Print Assumptions C13_phases_dropped_at_every_point.
+Print Assumptions C13_phases_rerun_completes.
+Print Assumptions C13_phases_recreated_is_fresh.
+Print Assumptions C13_phases_free_name_has_no_files.
+Example C13_phases_example :
+  let s := prun true (p0 2) [PCreate; PWrite 0; PWrite 1; PWrite 1; PMark; PStoreDelete 1; PCrash; PFinalize; PCreate; PWrite 0] in
+  ps_cat s = Marked /\ pvisible s = [] /\ ps_files s = [[1]; [1]] /\
+  pvisible (prun true (pround true s) [PCreate; PWrite 0]) = [2].
+Proof. vm_compute. repeat split; reflexivity. Qed.
